@@ -67,6 +67,8 @@ def synthetic_profile(rng, z_max=None, chems=None, n=None, z_top=0.0):
                 else:
                     cols.append(c0 * (0.2 + z / z_max))
             prf.append(np.vstack(cols).T, ['z'] + chems, ['m'] + ['kg/m^3'] * len(chems))
+    # the depth range of OUR table (never read back from the Profile object) travels with the profile
+    prf._harness_range = (float(z[0]), float(z[-1]))
     return prf
 
 
@@ -78,7 +80,18 @@ def world_profile(with_gases=False):
         prf = ambient.Profile(None)
         if with_gases:
             prf.add_computed_gas_concentrations()
+    # depth range from our own reading of the distributed table (first / last depth of the .dat file)
+    import os
+    from tamoc import ambient as _a
+    raw = np.loadtxt(os.path.join(os.path.dirname(_a.__file__), 'data', 'world_ocean_ave_ctd.dat'), comments='%')
+    prf._harness_range = (float(raw[0, 0]), float(raw[-1, 0]))
     return prf
+
+
+def table_range(prf):
+    """(top, bottom) depth of the table the HARNESS built the profile from; the Profile object's own
+    z_min / z_max are the code under test and are not used as a reference"""
+    return prf._harness_range
 
 
 # ---------------------------------------------------------------------------
@@ -253,8 +266,9 @@ def sbm_case(rng, profiles, rows_cap=500):
     de = math.exp(rng.uniform(math.log(0.2e-3), math.log(20e-3)))
     delta_t = rng.choice([1., 10., 100., 1000., math.exp(rng.uniform(0., math.log(1000.)))])
     us = us_estimate(kind, de)
-    zlo = max(50., prf.z_min + 1.)
-    zhi = min(3500., prf.z_max - 1.)
+    ztop, zbot = table_range(prf)
+    zlo = max(50., ztop + 1.)
+    zhi = min(3500., zbot - 1.)
     if rng.random() < 0.5:
         # depth first: any depth of the range, the maximum step is enlarged until the run fits the budget
         z0 = math.exp(rng.uniform(math.log(zlo), math.log(zhi)))
@@ -285,12 +299,12 @@ def sbm_cap_case(rng, profiles):
     """a slow, deep, tiny inert drop with the largest step: rises ~2 mm/s, so the 14-day cap
     (t > 1209600 s) ends the run after ~1210 stored rows (cheap: no equation of state)"""
     from tamoc import dbm
-    deep = [p for p in profiles if p[1].z_max >= 3400.]
+    deep = [p for p in profiles if table_range(p[1])[1] >= 3400.]
     name, prf = rng.choice(deep)
     p = dict(isfluid=True, iscompressible=True, rho_p=930., gamma=rng.uniform(24., 30.), beta=7e-4, co=2.9e-9,
              k_bio=0., t_bio=0., fp_type=1)
     obj = dbm.InsolubleParticle(True, True, rho_p=p['rho_p'], gamma=p['gamma'], beta=p['beta'], co=p['co'])
-    return dict(profile=name, descr=dict(kind='inert', **p), z0=rng.uniform(3200., min(3500., prf.z_max - 1.)), x0=0., y0=0.,
+    return dict(profile=name, descr=dict(kind='inert', **p), z0=rng.uniform(3200., min(3500., table_range(prf)[1] - 1.)), x0=0., y0=0.,
                 de=rng.uniform(0.2e-3, 0.22e-3), dT=None, K=1., K_T=rng.choice([1., 0.]), fdis=1e-6, t_hyd=0.,
                 lag_time=True, delta_t=1000., obj=obj, yk=np.array([1.]), prf=prf)
 
@@ -305,7 +319,7 @@ def sbm_stall_case(rng, profiles):
     yk = random_yk(rng, len(comp))
     with quiet():
         obj = dbm.FluidParticle(comp, fp_type=0)
-    zhi = min(1500., prf.z_max - 1.)
+    zhi = min(1500., table_range(prf)[1] - 1.)
     return dict(profile=name, descr=dict(kind='gas', composition=comp, fp_type=0, yk=[float(v) for v in yk]),
                 z0=rng.uniform(min(300., zhi), zhi), x0=0., y0=0., de=rng.uniform(0.4e-3, 1.0e-3),
                 dT=rng.choice([None, rng.uniform(0.5, 5.)]), K=rng.uniform(1., 6.), K_T=1., fdis=10 ** rng.uniform(-9, -7),
